@@ -247,6 +247,10 @@ def offenders(name, d, calls, pos, rng):
         for c in ("ndarray", "list", "frame"):
             out.append(("rows", c, "update", container(two, c)))
             out.append(("rows_wide", c, "update", container(np.hstack([two, two[:, :1]]), c)))
+    if k == "xd":
+        # a bare number handed to a detector that has established several columns: one column where d are expected
+        out.append(("width", "scalar", "update", float(base[0, 0])))
+        out.append(("width", "scalar", "update", np.float64(base[0, 0])))
     wide = np.hstack([base, base[:, :1] + 0.5])
     fault = "univariate" if name in UNIVARIATE else "width"
     m = "update" if (pos > 0 or k != "batch" or name == "KdqTreeBatch") else meth
